@@ -22,6 +22,9 @@ func fbb.parseB2Proposal(line, prop) (err)
   props C03 C17
   requires prop: prop != nil
   ensures nonneg-sizes: err == nil ==> prop.compressedSize >= 0 && prop.size >= 0
+  ensures message-type [C05]: err == nil ==> streq(prop.msgType, "EM") || streq(prop.msgType, "CM")
+  at return#1 requires refuses-only-other-codes [C05]: !(line[1] == 'C' || line[1] == 'D')
+  loop 0 invariant type-checked-first: $idx >= 0 ==> (streq(prop.msgType, "EM") || streq(prop.msgType, "CM"))
 
 # C05 answer alphabet (docs/F6FBB-B2F/protocole.html): + Y accept, - N already received,
 # R rejected, = L later, H accepted-but-held (the message IS transferred), ! A accept from
@@ -57,9 +60,6 @@ func fbb.parseFW(line) (addrs, err)
   loop 0 invariant n: len(addrs) == $idx + 1
 
 func fbb.parsePM(str) (pm, err)
-  props C03
-
-func fbb.isSID(str) (r)
   props C03
 
 # C09 address normal form: "proto:addr" keeps both parts; a bare callsign and
@@ -281,6 +281,42 @@ func fbb.secureLoginResponse(challenge, password) (r)
 extern func field:fbb.Session.secureLoginHandleFunc(addr) (password, err)
   modifies foreign
 
+# NewSession: what Exchange relies on (logger, pending-message map, the own address as first
+# forwarder address) and what C01 relies on (the traffic statistics start empty)
+func fbb.NewSession(mycall, targetcall, locator, h) (s)
+  props C01 C05
+  requires globals: StdLogger != nil
+  ensures session: s != nil && s.log != nil && s.pLog != nil && s.pendingMessages != nil && len(s.localFW) == 1 && s.h == h
+  ensures statistics-start-empty: len(s.trafficStats.Received) == 0 && len(s.trafficStats.Sent) == 0
+  ensures not-done: !s.quitReceived && !s.quitSent && !s.master && s.rd == nil
+
+func fbb.(*Session).SetLogger(s, logger) ()
+  props C03 C05
+  requires globals: StdLogger != nil
+  ensures never-nil: s.log != nil && s.pLog != nil
+  ensures custom: logger != nil ==> s.log == logger && s.pLog == logger
+
+# gzip proposals are offered only if the remote announced G and the experiment is enabled locally
+ghost var gRemoteG bool
+ghost var gGzipEnv bool
+func fbb.(*Session).highestPropCode(s) (r)
+  props C05
+  call fbb.(sid).Has requires asks-for-g: streq($1, "G") && same($0, s.remoteSID)
+  call fbb.(sid).Has set gRemoteG := $r0
+  call fbb.gzipExperimentEnabled set gGzipEnv := $r0
+  at return requires gzip-only-when-both-agree: ($r0 == 'D' ==> gRemoteG && gGzipEnv) && ($r0 != 'D' ==> $r0 == 'C')
+
+# a line is a SID exactly if it is bracketed
+func fbb.isSID(str) (r)
+  props C03 C05
+  ensures def: r <==> (hasPrefix(str, "[") && hasSuffix(str, "]"))
+
+# the session's line reader reports "*** ..." lines of the remote as errors
+func fbb.(*Session).nextLine(s) (line, err)
+  props C02 C05 C03
+  requires sess: SessOK(s)
+  call fbb.(*Session).nextLineRemoteErr requires remote-errors-are-errors: $1
+
 # configuration setters: what the session later does is what the application configured
 func fbb.(*Session).IsMaster(s, isMaster) ()
   props C05 C01
@@ -310,6 +346,8 @@ func fbb.(*Session).SetSecureLoginHandleFunc(s, f) ()
 
 ghost var gWroteAny bool
 ghost var gFWCount int
+ghost var gAuxPw string
+ghost var gAuxAskedAt int
 ghost var gPRWritten bool
 ghost var gAbort error
 
@@ -325,6 +363,9 @@ func fbb.(*Session).sendHandshake(s, writer, secureChallenge) (err)
   call fmt.Fprintf#0 requires fw-prefix: $1 == ";FW:" && len($2) == 0
   call fmt.Fprintf#1 requires aux-hash: $1 == " %s|%s" && len($2) == 2 && secureChallenge != "" && i > 0 && len(password) > 0 && same(unbox($2[0]), addr.Addr) && same(unbox($2[1]), slr(secureChallenge, password))
   call fmt.Fprintf#2 requires bare: $1 == " %s" && len($2) == 1 && same(unbox($2[0]), addr.Addr)
+  call field:fbb.Session.secureLoginHandleFunc#0 set gAuxPw := $r0
+  call field:fbb.Session.secureLoginHandleFunc#0 set gAuxAskedAt := i + 1
+  call fmt.Fprintf#2 requires bare-only-without-password [C16 C05]: secureChallenge == "" || i == 0 || (gAuxAskedAt == i + 1 && len(gAuxPw) == 0)
   call fmt.Fprintf#3 requires fw-end: $1 == "\r" && len($2) == 0
   # every local address is listed, one entry each, in order
   call fmt.Fprintf#1 requires in-order [C05 C16]: gFWCount == i
@@ -479,6 +520,8 @@ func fbb.(*Session).readHandshake(s) (data, err)
   props C03 C16 C05
   loop 0 reads-input each iteration peeks or reads from the remote
   requires sess: SessOK(s)
+  # lines like '*** MTD Stats ...' before the prompt are banner text, not errors
+  call fbb.(*Session).nextLineRemoteErr requires banner-lines-tolerated [C05]: !$1
   call fbb.parseSID set gSIDParsed := $r1 == nil
   call fbb.(sid).Has requires b2-check [C05]: streq($1, "B2") && same($0, data.SID)
   call fbb.(sid).Has set gB2 := $r0
@@ -880,6 +923,7 @@ func fbb.(*Session).outbound(s) (props)
   call fbb.sortProposals requires all: len($0) == len(props)
   ensures elems: forall k :: 0 <= k && k < len(props) ==> props[k] != nil && Complete(props[k])
   ensures no-handler: s.h == nil ==> len(props) == 0
+  at return#1 requires every-queued-message-considered [C01 C05]: $idx0 >= len(msgs)
   loop 0 invariant elems: (forall k :: 0 <= k && k < len(props) ==> props[k] != nil && Complete(props[k])) && (forall k :: 0 <= k && k < len(msgs) ==> msgs[k] != nil)
 
 # C05 block order "precedence, then size": sort by ascending compressed size (ties by MID),
